@@ -263,8 +263,15 @@ CkAfterLeeway(ck, claim, secs, ret) ==
        IN IF claim = "exp" THEN [ck EXCEPT !.flags = fl, !.expLee = secs]
           ELSE [ck EXCEPT !.flags = fl, !.nbfLee = secs]
 StrClaim(claim) == claim \in {"iss", "sub", "aud"}
+\* expected values that are not UTF-8 (descriptor spelling "#hex:"): the value cannot be stored
+BadUtf8Vals == {"#hex:fffe", "#hex:61ff62", "#hex:c0af"}
+ClaimSetRet(claim, val) == IF StrClaim(claim) /\ val # NONE /\ val \notin BadUtf8Vals THEN 0 ELSE 1
+\* A named deviation, as the code has it: when storing the value fails, the claim has already been made
+\* mandatory and the previous expectation has already been dropped - the checker then refuses every
+\* token until the claim is set or deleted again (it fails closed).
 CkAfterClaimSet(ck, claim, val, ret) ==
-  IF ret # 0 \/ ~StrClaim(claim) \/ val = NONE THEN ck
+  IF ~StrClaim(claim) \/ val = NONE THEN ck
+  ELSE IF ret # 0 THEN [ck EXCEPT !.flags = @ \cup {claim}, !.expect = [n \in DOMAIN @ \ {claim} |-> @[n]]]
   ELSE [ck EXCEPT !.flags = @ \cup {claim},
                   !.expect = [n \in DOMAIN @ \cup {claim} |-> IF n = claim THEN val ELSE @[n]]]
 CkAfterClaimDel(ck, claim, ret) ==
@@ -348,6 +355,9 @@ P_C02(pt, cb, ret) ==
         /\ FamilyOK(pt.alg, cb.cfg.key.kd)
         /\ (pt.alg \in ESAlgs => FloorOK(pt.alg, cb.cfg.key.kd))   \* "EC of matching size"
   /\ (pt.status = "ok" /\ cb.ret = 0 /\ ~Admit("checker", cb.cfg.alg, cb.cfg.key)) => ret # 0
+  \* a header alg that is a string but not (exactly) an algorithm name names "another algorithm" too
+  /\ (pt.status = "reject" /\ Keyed(cb.cfg) /\ pt.spelling \notin {"?", NONE} /\ pt.spelling \notin NonStringAlg
+        /\ StrAlg(pt.spelling) = "INVAL") => ret # 0
 \* C03: unsigned only without key and algorithm
 P_C03(pt, cb, ret) ==
   /\ (ret = 0 /\ pt.status = "ok") =>
@@ -575,6 +585,15 @@ CClaimDel(c, claim, ret) ==
 CSetCb(c, prog, has, ret) ==
   /\ checkers' = [checkers EXCEPT ![c] = IF ret = 0 THEN [@ EXCEPT !.cb = prog, !.hascb = has] ELSE @]
   /\ UNCHANGED <<now, ops, rings, builders, toks, nextId>>
+\* setcb(NULL, ctx): with a callback installed only the context changes (the callback stays); without
+\* one the call is refused with an error
+SetCbCtxRet(o) == IF o.hascb THEN 0 ELSE 1
+CSetCbCtx(c, ret) ==
+  /\ checkers' = [checkers EXCEPT ![c] = ErrAfter(@, ret # 0)]
+  /\ UNCHANGED <<now, ops, rings, builders, toks, nextId>>
+BSetCbCtx(b, ret) ==
+  /\ builders' = [builders EXCEPT ![b] = ErrAfter(@, ret # 0)]
+  /\ UNCHANGED <<now, ops, rings, checkers, toks, nextId>>
 BSetCb(b, prog, has, ret) ==
   /\ builders' = [builders EXCEPT ![b] = IF ret = 0 THEN [@ EXCEPT !.cb = prog, !.hascb = has] ELSE @]
   /\ UNCHANGED <<now, ops, rings, checkers, toks, nextId>>
